@@ -38,7 +38,7 @@ SCRATCH = '/verif/scratch/su'
 
 
 def cases(tier, seed):
-    n = 40 if tier == 'quick' else 480
+    n = 40 if tier == 'quick' else 960
     return [{'seed': seed, 'idx': i, 'hashseed': i % 5, 'tier': tier, 'kind': 'vacancy' if i % 2 == 0 else 'interstitial'}
             for i in range(n)]
 
